@@ -6,10 +6,6 @@ import json, os
 HERE = os.path.dirname(os.path.dirname(os.path.abspath(__file__)))
 
 NA = {
-    "C09": "Pruning/ordering never change the search value: numerical equality of two search values over all "
-           "positions, depths and ordering states; no clause is visible in the shape of the code (four different window "
-           "shapes, fail-hard returns, stand-pat interact numerically) and no structural rule is a necessary condition. "
-           "Needs a reference search executed over generated trees - a different technique family (DESIGN.md §6).",
 }
 
 PENDING = "rule module not built yet (static check planned in DESIGN.md §4; will move to `checks` when it lands)"
@@ -47,6 +43,14 @@ META = {
     "C08": ("loop-bound and index-range obligations on MIR/HIR (depth counter range, limit comparison form, per-ply table sizes)",
             "Decides that the depth-limit test cannot be stepped over, that the depth counter stays in a bounded range and that "
             "every depth-indexed table is large enough for that range.",
+            "rustc front end; fact serialiser"),
+    "C09": ("negamax/PVS structure rules on typed HIR + push/pop typestate: result negation, window containment, no-reduction depth accounting, "
+            "loop-exit census (every generated move searched unless cut off), ordering-state dataflow, stand-pat, monotone bounds",
+            "Decides ONLY the structural clauses every fail-hard negamax must satisfy on all paths (each a necessary condition: breaking it changes "
+            "the value on some position): child results negated once, child windows are negated sub-windows, no depth reductions, no move "
+            "skipped except at a cut-off (capture-only rule in quiescence), killer/history/table move reach only the sort key, stand-pat, bounds "
+            "only raised. Does NOT decide the property itself - numerical equality with an unpruned reference search over all positions - "
+            "which needs a reference search run (another technique family).",
             "rustc front end; fact serialiser"),
     "C10": ("sibling agreement of the no-move leaf rule; mate-score constants vs driver thresholds; empty-root provenance",
             "Decides three structural clauses (leaf rule agreement, threshold ordering, no move => no bestmove); does NOT decide that "
